@@ -21,6 +21,7 @@
 
 #include "opentelemetry/trace/trace_state.h"
 #include "vh.h"
+#include "vh_guard.h"
 
 #ifdef C14_NOREGEX
 static_assert(OPENTELEMETRY_HAVE_WORKING_REGEX == 0,
@@ -879,8 +880,17 @@ void check_header(vh::Case &c, const std::string &h)
           return;
         }
   // the header is handed over as a non NUL-terminated view into a larger buffer
+  // (every fourth length: as a view that ends exactly at an inaccessible page instead, so that an
+  // over-read by code ASan does not see - libc functions it does not intercept - is a SIGSEGV)
   std::string buf = "\x01" + h + "\x01,zz=1";
-  auto ts         = trace::TraceState::FromHeader(nostd::string_view(buf.data() + 1, h.size()));
+  std::unique_ptr<vh::GuardedBytes> guarded;
+  if (h.size() % 4 == 3)
+  {
+    guarded.reset(new vh::GuardedBytes(h));
+    c.tag("header-ends-at-a-guard-page");
+  }
+  auto ts = trace::TraceState::FromHeader(guarded ? nostd::string_view(guarded->data(), guarded->size())
+                                                  : nostd::string_view(buf.data() + 1, h.size()));
   List got        = entries(*ts);
   check_wellformed(c, got, "result of FromHeader");
   bool ok = false;
